@@ -64,7 +64,7 @@ func (w *RecWatcher) Fire(path string) {
 type nopObserver struct{}
 
 func (nopObserver) Add(certificate.Supplier) {}
-func (nopObserver) Start() error            { return nil }
+func (nopObserver) Start() error             { return nil }
 
 // WorldOpts describes the configuration a World is assembled from.
 type WorldOpts struct {
